@@ -36,9 +36,12 @@ META = dict(
 class World:
     """a simulated process table entry whose exit instant is symbolic"""
 
-    def __init__(self, ctx, k, pid, tag, role, exits, eintr_at=None, allsig=False, emax=F(2, 10)):
+    def __init__(self, ctx, k, pid, tag, role, exits, eintr_at=None, allsig=False, emax=F(2, 10), stolen=False):
         self.ctx, self.k, self.pid, self.role = ctx, k, pid, role
         self.E = ctx.real(f"exit_at{tag}", 0, emax) if exits else None
+        # stolen: somebody else (a SIGCHLD handler, subprocess.Popen.poll() in another thread) reaps the child `steal_after` seconds
+        # after it exited; from then on waitpid() answers ECHILD and the PID is gone
+        self.R = (self.E + ctx.real(f"steal_after{tag}", 0, emax)) if (stolen and exits) else None
         self.how = ctx.choice(f"how{tag}", ["code", "signal"]) if role == "child" else None
         self.code = ctx.int(f"code{tag}", 0, 255)
         # every signal 1..64 only where asked (the enum lookup concretises the number: x64 paths); two boundary signals elsewhere
@@ -71,6 +74,8 @@ def install_world(k, worlds):
         if npolls[0] > MAXPOLLS * len(worlds):
             raise BoundExceeded()
         w = table.get(pid)
+        if w is not None and w.R is not None and w.started and bool(k.now - w.t0 >= w.R):
+            w.reaped = True
         if w is None or w.role != "child" or w.reaped:
             raise ChildProcessError(errno.ECHILD, "No child processes")
         if w.eintr_at is not None and len(w.polls) == w.eintr_at:
@@ -94,6 +99,8 @@ def install_world(k, worlds):
         w = table.get(pid)
         if w is None or w.role == "never":
             return False
+        if w.R is not None and w.started and bool(k.now - w.t0 >= w.R):
+            w.reaped = True
         alive = w.alive() or (w.role == "child" and not w.reaped)
         w.polls.append((k.now, alive))
         return alive
@@ -172,15 +179,15 @@ def sleeps_ok(sl):
 
 @harness("C15.wait", quick=[dict(role=r, tmo=t, exits=e, eintr=None) for r in ("child", "nonchild") for t in ("sym", "none") for e in (True, False) if not (t == "none" and not e)]
          + [dict(role="never", tmo="sym", exits=False, eintr=None), dict(role="child", tmo="sym", exits=True, eintr=0), dict(role="child", tmo="sym", exits=True, eintr=2), dict(role="child", tmo="zero", exits=True, eintr=None),
-            dict(role="child", tmo="neg", exits=True, eintr=None)],
+            dict(role="child", tmo="neg", exits=True, eintr=None), dict(role="child", tmo="sym", exits=True, eintr=None, stolen=True)],
          thorough=[dict(role=r, tmo=t, exits=e, eintr=i) for r in ("child", "nonchild") for t in ("sym", "none", "zero") for e in (True, False) for i in (None, 0, 1, 3) if not (t == "none" and not e) and not (i is not None and r != "child")]
-         + [dict(role="never", tmo=t, exits=False, eintr=None) for t in ("sym", "none", "zero")] + [dict(role=r, tmo="neg", exits=True, eintr=None) for r in ("child", "nonchild", "never")],
+         + [dict(role="never", tmo=t, exits=False, eintr=None) for t in ("sym", "none", "zero")] + [dict(role=r, tmo="neg", exits=True, eintr=None) for r in ("child", "nonchild", "never")] + [dict(role="child", tmo=t, exits=True, eintr=i, stolen=True) for t in ("sym", "none") for i in (None, 1)],
          cap=80)
-def wait(ctx, role, tmo, exits, eintr):
+def wait(ctx, role, tmo, exits, eintr, stolen=False):
     k = simk.Kernel(ctx)
     simk.system_files(k)
     simk.full_process(k, 77)
-    w = World(ctx, k, 77, "", role, exits, eintr, allsig=(tmo == "none" and role == "child"))
+    w = World(ctx, k, 77, "", role, exits, eintr, allsig=(tmo == "none" and role == "child" and not stolen), stolen=stolen)
     timeout = {"sym": lambda: ctx.real("timeout", 0, F(2, 10)), "none": lambda: None, "zero": lambda: 0, "neg": lambda: ctx.real("timeout", -5, 5)}[tmo]()
     if tmo == "neg":
         ctx.assume(timeout < 0)
@@ -210,7 +217,10 @@ def wait(ctx, role, tmo, exits, eintr):
                 ctx.prove(gone_at is not None, "never-early")
                 if gone_at is not None:
                     ctx.prove(end - start >= gone_at, "never-early")
-                    if role == "child":
+                    if role == "child" and stolen:
+                        # the status may have been collected by this call (before the thief) or be lost for good: None
+                        ctx.prove(r is None or ctx.eq(r, w.expected()), "returns-exit-status", detail=f"reaped elsewhere: how={w.how} got {r!r}")
+                    elif role == "child":
                         ctx.prove(ctx.eq(r, w.expected()), "returns-exit-status", detail=f"how={w.how} got {r!r}")
                     else:
                         ctx.prove(r is None, "non-child-returns-None")
